@@ -9,8 +9,11 @@ import (
 	"olverif/internal/gen"
 	"olverif/internal/hist"
 	"olverif/internal/mon"
+	"olverif/internal/txb"
 	"olverif/internal/verdict"
 	"olverif/internal/world"
+
+	"github.com/Oneledger/protocol/action/staking"
 )
 
 // stakeRelevantEqual: validator, freeze and staking-option records unchanged.
@@ -49,6 +52,30 @@ func checkC10(tier string) int {
 			params.Frankenstein = 1 // forced options (top 64 / min 500000) at block 1
 		}
 		cfg := drive.Cfg{Tag: "c10", Seed: hseed, Blocks: blocks, Params: params, Scripts: []string{"stakingb", "evidence", "transfers", "governance"}, Scout: true, Jumps: true, Absents: true, Evid: true, Honest: true}
+		darkHex := ""
+		if i%4 == 2 {
+			// a validator goes dark (its node is off: it signs no commit any more) and then takes all its
+			// stake out: it has to leave Tendermint's set all the same
+			w0, _ := world.New(params)
+			dark := w0.Vals[1]
+			darkHex = hist.HexAddr(dark.ValAddr.String())
+			cfg.ForceAbsent = func(h int64) []string {
+				if h >= 12 {
+					return []string{hist.HexAddr(dark.ValAddr.String())}
+				}
+				return nil
+			}
+			cfg.ExtraPlan = func(c *gen.Ctx) []hist.TxSpec {
+				if c.H == 18 {
+					if cur := gen.StakeOf(c.S, dark.ValAddr).Int64(); cur > 0 {
+						sp := gen.Build(c, "UNSTAKE", &staking.Unstake{ValidatorAddress: dark.ValAddr, StakeAddress: dark.Stake.Addr, Stake: txb.Amt("OLT", fmt.Sprint(cur))}, "a validator whose node is off unstakes everything", &dark.Stake, gen.ConsAccount(dark))
+						return []hist.TxSpec{sp}
+					}
+				}
+				return nil
+			}
+			r.Count("histories_with_a_validator_gone_dark", 1)
+		}
 		quiet := 0
 		var lastSet string
 		cfg.FilterPlan = func(c *gen.Ctx, specs []hist.TxSpec) []hist.TxSpec {
@@ -93,7 +120,13 @@ func checkC10(tier string) int {
 				r.Violate(verdict.Violation{Signature: f.Sig, What: fmt.Sprintf("history seed %d: %s", hseed, f.What), Witness: map[string]interface{}{"seed": hseed, "height": blk.H, "updates": us, "txs": sampleTxs(blk), "recipes": run.Recipes()}})
 				return true
 			}
-			if stakeRelevantEqual(blk.Prev, blk.Cur) && len(blk.Recipe.Absent) == 0 {
+			onlyDark := darkHex != ""
+			for _, a := range blk.Recipe.Absent {
+				if !strings.EqualFold(a, darkHex) {
+					onlyDark = false
+				}
+			}
+			if stakeRelevantEqual(blk.Prev, blk.Cur) && (len(blk.Recipe.Absent) == 0 || onlyDark) {
 				quiet++
 			} else {
 				quiet = 0
